@@ -327,6 +327,11 @@ void TaskScheduler::WaitForTasks( uint32_t threadNum )
 
 void TaskScheduler::WakeThreads(  int32_t maxToWake_ )
 {
+    // The caller has just published work with plain stores. They have to be visible before
+    // the number of waiting threads is read: otherwise a thread that is about to wait can
+    // miss both the new work (it checks the pipes after incrementing the count) and this
+    // wake-up, and the work stays queued while every thread sleeps.
+    MemoryBarrierFull();
     if( maxToWake_ > 0 && maxToWake_  < m_NumThreadsWaiting )
     {
         SemaphoreSignal( m_NewTaskSemaphore, maxToWake_ );
